@@ -5,11 +5,16 @@
    of s, side/step/status correspond.  The theorems transfer the symmetry of the square-level rules (spec/Rules.v)
    to the engine through T1 (C01), the step lemma (C02), the status rule (C12) and the result order (C04); the
    composition of the two symmetries follows by composing them.
-   PARTIAL: which actions the REPETITION rules withhold is symmetric only up to 64-bit hash collisions (known
-   finding F6 is a concrete asymmetry); that part and the capture preview are checked by the metamorphic replay of
-   every generated game through the real crate (sym), not proved. *)
+   WHOLE GAMES (SymGame): two games that start from corresponding start positions and proceed by corresponding
+   rule-only actions stay corresponding at every step - states (cells, side, step, status, also across turn changes)
+   and the repetition bookkeeping (exact turn-start positions, turn's starting board, capture flag).  Along such
+   games the rule-only offered actions and the capture preview correspond, and so do the actions that the REPETITION
+   rules withhold, unless a 64-bit hash collision is involved on one side (NoCollisionAt; that proviso cannot be
+   dropped: known finding F6 is a concrete asymmetry).  The metamorphic replay of every generated game through the
+   real crate (sym) checks the same on the implementation. *)
 From Coq Require Import NArith List Bool.
-From Arimaa Require Import Types U64 Board Engine Cells Rules Monitors Invariant Live ResultLemmas Symmetry.
+From Arimaa Require Import Types U64 Board Engine Cells Rules Monitors Invariant Live Reach ResultLemmas Traps RepInv Material Symmetry.
+Import ListNotations.
 Open Scope N_scope.
 
 Theorem C11_mirror_offered : forall s s' pp pp' i d, SymStates mirror_sq (fun o => o) s s' pp pp' -> i < 64 ->
@@ -58,6 +63,103 @@ Theorem C11_flip_result : forall s s' pp pp', SymStates flip_sq negb s s' pp pp'
   is_terminal s = term_of (spec_result (cell (board s)) (side s) (nonempty (valid_actions s))).
 Proof. exact flip_result. Qed.
 Print Assumptions C11_flip_result.
+
+(* the capture preview of corresponding offered steps names corresponding pieces (same kind, mapped square and owner),
+   from every position without trap violations (all reachable ones: C10 / C13_legal_after_step) *)
+Theorem C11_mirror_preview : forall s s' pp pp' i d, SymStates mirror_sq (fun o => o) s s' pp pp' ->
+  In (Move i d) (valid_actions_no_rep s) -> legal_traps (cell (board s)) ->
+  trapped_animal_for_action s' (Move (mirror_sq i) (mirror_dir d)) =
+  tprev mirror_sq (fun o => o) (trapped_animal_for_action s (Move i d)).
+Proof. exact mirror_preview. Qed.
+Print Assumptions C11_mirror_preview.
+
+Theorem C11_flip_preview : forall s s' pp pp' i d, SymStates flip_sq negb s s' pp pp' ->
+  In (Move i d) (valid_actions_no_rep s) -> legal_traps (cell (board s)) ->
+  trapped_animal_for_action s' (Move (flip_sq i) (flip_dir d)) =
+  tprev flip_sq negb (trapped_animal_for_action s (Move i d)).
+Proof. exact flip_preview. Qed.
+Print Assumptions C11_flip_preview.
+
+Theorem C11_preview_image : forall j k o, tprev flip_sq negb (Some (j, k, o)) = Some (flip_sq j, k, negb o) /\ tprev flip_sq negb None = None.
+Proof. repeat split. Qed.
+Print Assumptions C11_preview_image.
+
+(* ---- whole games ---- *)
+(* SymGame ts td tw s s' G G' b0 b0': s and s' are reached from corresponding start positions by corresponding actions;
+   G, G' are the exact turn-start positions since the last capture, b0, b0' the boards at the start of the turn *)
+Theorem C11_game_definition : forall ts td tw,
+  (forall s s', StartPosition s -> StartPosition s' -> img ts tw (cell (board s)) (cell (board s')) -> side s' = tw (side s) ->
+     legal_traps (cell (board s)) -> SymGame ts td tw s s' [(board s, side s)] [(board s', side s')] (board s) (board s')) /\
+  (forall s s' pp pp' G G' b0 b0' a, SymGame ts td tw s s' G G' b0 b0' -> ph s = PlayPhase pp -> ph s' = PlayPhase pp' ->
+     In a (valid_actions_no_rep s) -> move_no s + 1 < P64 -> move_no s' + 1 < P64 ->
+     SymGame ts td tw (take_action s a) (take_action s' (tact ts td a))
+       (fst (ghost_next s pp G b0 a)) (fst (ghost_next s' pp' G' b0' (tact ts td a)))
+       (snd (ghost_next s pp G b0 a)) (snd (ghost_next s' pp' G' b0' (tact ts td a)))).
+Proof. intros ts td tw. split; [exact (SG_start ts td tw)|exact (SG_step ts td tw)]. Qed.
+Print Assumptions C11_game_definition.
+
+(* corresponding games are in corresponding states (cells, side, step, status), with corresponding repetition data *)
+Theorem C11_mirror_game_states : forall s s' G G' b0 b0', SymGame mirror_sq mirror_dir (fun o => o) s s' G G' b0 b0' ->
+  exists pp pp', SymRep mirror_sq (fun o => o) s s' pp pp' G G' b0 b0'.
+Proof. exact mirror_game_rep. Qed.
+Print Assumptions C11_mirror_game_states.
+
+Theorem C11_flip_game_states : forall s s' G G' b0 b0', SymGame flip_sq flip_dir negb s s' G G' b0 b0' ->
+  exists pp pp', SymRep flip_sq negb s s' pp pp' G G' b0 b0'.
+Proof. exact flip_game_rep. Qed.
+Print Assumptions C11_flip_game_states.
+
+Theorem C11_symrep_unfold : forall ts tw s s' pp pp' G G' b0 b0', SymRep ts tw s s' pp pp' G G' b0 b0' ->
+  SymStates ts tw s s' pp pp' /\ RepInv s pp G b0 /\ RepInv s' pp' G' b0' /\
+  Forall2 (fun x x' => img ts tw (cell (fst x)) (cell (fst x')) /\ snd x' = tw (snd x)) G G' /\
+  img ts tw (cell b0) (cell b0') /\ trapped pp' = trapped pp.
+Proof. intros ts tw s s' pp pp' G G' b0 b0' [A B C D E F]. split; [exact A|]. split; [exact B|]. split; [exact C|]. split; [exact D|]. split; [exact E|exact F]. Qed.
+Print Assumptions C11_symrep_unfold.
+
+(* at every step of corresponding games the rule-only offered actions correspond, in both directions *)
+Theorem C11_mirror_game_offered : forall s s' G G' b0 b0' a, SymGame mirror_sq mirror_dir (fun o => o) s s' G G' b0 b0' ->
+  (In a (valid_actions_no_rep s) -> In (tact mirror_sq mirror_dir a) (valid_actions_no_rep s')) /\
+  (forall i d, i < 64 -> In (Move (mirror_sq i) (mirror_dir d)) (valid_actions_no_rep s') -> In (Move i d) (valid_actions_no_rep s)) /\
+  (In Pass (valid_actions_no_rep s') -> In Pass (valid_actions_no_rep s)).
+Proof. exact mirror_game_offered. Qed.
+Print Assumptions C11_mirror_game_offered.
+
+Theorem C11_flip_game_offered : forall s s' G G' b0 b0' a, SymGame flip_sq flip_dir negb s s' G G' b0 b0' ->
+  (In a (valid_actions_no_rep s) -> In (tact flip_sq flip_dir a) (valid_actions_no_rep s')) /\
+  (forall i d, i < 64 -> In (Move (flip_sq i) (flip_dir d)) (valid_actions_no_rep s') -> In (Move i d) (valid_actions_no_rep s)) /\
+  (In Pass (valid_actions_no_rep s') -> In Pass (valid_actions_no_rep s)).
+Proof. exact flip_game_offered. Qed.
+Print Assumptions C11_flip_game_offered.
+
+(* ... the capture previews correspond *)
+Theorem C11_mirror_game_preview : forall s s' G G' b0 b0' i d, SymGame mirror_sq mirror_dir (fun o => o) s s' G G' b0 b0' ->
+  In (Move i d) (valid_actions_no_rep s) ->
+  trapped_animal_for_action s' (Move (mirror_sq i) (mirror_dir d)) = tprev mirror_sq (fun o => o) (trapped_animal_for_action s (Move i d)).
+Proof. exact mirror_game_preview. Qed.
+Print Assumptions C11_mirror_game_preview.
+
+Theorem C11_flip_game_preview : forall s s' G G' b0 b0' i d, SymGame flip_sq flip_dir negb s s' G G' b0 b0' ->
+  In (Move i d) (valid_actions_no_rep s) ->
+  trapped_animal_for_action s' (Move (flip_sq i) (flip_dir d)) = tprev flip_sq negb (trapped_animal_for_action s (Move i d)).
+Proof. exact flip_game_preview. Qed.
+Print Assumptions C11_flip_game_preview.
+
+(* ... and which turn-ending actions the repetition rules withhold, up to 64-bit collisions on either side *)
+Theorem C11_mirror_game_withheld : forall s s' G G' b0 b0', SymGame mirror_sq mirror_dir (fun o => o) s s' G G' b0 b0' ->
+  (NoCollisionAt s G b0 (board s) -> NoCollisionAt s' G' b0' (board s') -> (In Pass (valid_actions s) <-> In Pass (valid_actions s'))) /\
+  (forall i d, i < 64 -> NoCollisionAt s G b0 (board (take_action s (Move i d))) ->
+     NoCollisionAt s' G' b0' (board (take_action s' (Move (mirror_sq i) (mirror_dir d)))) ->
+     (In (Move i d) (valid_actions s) <-> In (Move (mirror_sq i) (mirror_dir d)) (valid_actions s'))).
+Proof. exact mirror_game_withheld. Qed.
+Print Assumptions C11_mirror_game_withheld.
+
+Theorem C11_flip_game_withheld : forall s s' G G' b0 b0', SymGame flip_sq flip_dir negb s s' G G' b0 b0' ->
+  (NoCollisionAt s G b0 (board s) -> NoCollisionAt s' G' b0' (board s') -> (In Pass (valid_actions s) <-> In Pass (valid_actions s'))) /\
+  (forall i d, i < 64 -> NoCollisionAt s G b0 (board (take_action s (Move i d))) ->
+     NoCollisionAt s' G' b0' (board (take_action s' (Move (flip_sq i) (flip_dir d)))) ->
+     (In (Move i d) (valid_actions s) <-> In (Move (flip_sq i) (flip_dir d)) (valid_actions s'))).
+Proof. exact flip_game_withheld. Qed.
+Print Assumptions C11_flip_game_withheld.
 
 Theorem C11_swapped_results : tres negb (Some RGold) = Some RSilver /\ tres negb (Some RSilver) = Some RGold /\ tres negb None = None /\
   tres (fun o => o) (Some RGold) = Some RGold.
